@@ -416,8 +416,11 @@ def gen_accept_case(rng):
     prod = gu.make_spec("uniform", dims, ls[0], ls[1], ls[2], loc)
     cons = gu.make_spec("uniform", dims, lc[0], lc[1], lc[2], loc)
     grids = rng.choice(["both", "both", "both", "both", "cons-none", "prod-none", "none", "unstructured"])
-    return {"type": "accept", "prod": prod, "cons": cons, "grids": grids,
-            "pmask": rng.choice(MASK_KINDS + ["A", "A"]), "cmask": rng.choice(MASK_KINDS + ["A", "A"]),
+    pmask = rng.choice(MASK_KINDS + ["A", "A"])
+    cmask = rng.choice(MASK_KINDS + ["A", "A"])
+    if pmask == "A" and rng.random() < 0.35:
+        cmask = "Aobj"   # the producer's mask array itself, declared by a consumer that may be laid out differently
+    return {"type": "accept", "prod": prod, "cons": cons, "grids": grids, "pmask": pmask, "cmask": cmask,
             "via": rng.choice(["accepts", "accepts", "link"])}
 
 
@@ -437,7 +440,7 @@ def all_accept_cases():
             if grids != "both" and n % 25:
                 continue
             for pm in MASK_KINDS:
-                for cm in MASK_KINDS:
+                for cm in MASK_KINDS + (["Aobj"] if pm == "A" else []):
                     for via in ("accepts", "link"):
                         yield {"type": "accept", "prod": prod, "cons": cons, "grids": grids, "pmask": pm, "cmask": cm,
                                "via": via}
@@ -460,6 +463,10 @@ def accept_setup(case):
             arr = np.zeros(shp, dtype=bool)
         elif kind == "full":
             arr = np.ones(shp, dtype=bool)
+        elif kind == "Aobj":
+            # the consumer declares the producer's mask *array* as it is (same numbers, same object when the shapes
+            # agree) although its grid may be laid out differently: physically another set of cells
+            arr = a if shp == a.shape else relayout(gp, g, a)
         else:
             base = a if kind == "A" else b
             arr = relayout(gp, g, base) if is_cons else base
@@ -476,8 +483,12 @@ def run_accept(case):
     use_c = case["grids"] in ("both", "prod-none", "unstructured")
     out = {"gp": gp, "gc": gc, "parr": parr, "carr": carr, "pm": pm, "cm": cm}
     try:
-        pinfo = fm.Info(time=T(0), grid=gp if use_p else None, units="m", mask=py_mask(pm))
-        cinfo = fm.Info(time=None, grid=gc if use_c else None, units="m", mask=py_mask(cm))
+        pmask_obj = py_mask(pm)
+        cmask_obj = py_mask(cm)
+        if case["cmask"] == "Aobj" and isinstance(pmask_obj, np.ndarray) and np.shape(pmask_obj) == np.shape(cmask_obj):
+            cmask_obj = pmask_obj   # one mask object defined once and handed to both components
+        pinfo = fm.Info(time=T(0), grid=gp if use_p else None, units="m", mask=pmask_obj)
+        cinfo = fm.Info(time=None, grid=gc if use_c else None, units="m", mask=cmask_obj)
         if case["via"] == "accepts":
             f1, f2 = {}, {}
             cinfo.accepts(pinfo, f1)
@@ -486,7 +497,7 @@ def run_accept(case):
             out["down"] = "mask" not in f2
         else:
             if not use_p:
-                pinfo = fm.Info(time=T(0), grid=gp, units="m", mask=py_mask(pm))
+                pinfo = fm.Info(time=T(0), grid=gp, units="m", mask=pmask_obj)
             o = fm.Output(name="out", info=pinfo)
             i = fm.Input(name="in", info=cinfo)
             o >> i
